@@ -180,7 +180,8 @@ def mode_text(mode):
 
 def mode_dir(mode):
     """Spelling of the third argument -> 1 | 0 | -1"""
-    return {None: 1, '1': 1, '0': 0, '-1': -1, 'TRUE': 1, 'FALSE': 0, '': 0}[mode]
+    # (2 and -2: only the sign of the third argument matters - what the unchanged tree and the usual reading of Excel do)
+    return {None: 1, '1': 1, '0': 0, '-1': -1, 'TRUE': 1, 'FALSE': 0, '': 0, '2': 1, '-2': -1}[mode]
 
 
 def check_match(case):
@@ -368,6 +369,20 @@ def check_crit(case):
                 'acc' if fn != 'COUNTIF' else 'other'
             fails.append(('%s|aggregate:%s|%s' % (fn if feat in ('acc', 'other') else 'criterion', feat, X.cls(got)),
                           '%s -> %r, expected %r (every element alone is filtered as expected)' % (text, got, exp)))
+    # partition: a text cell or a blank cell either satisfies a text criterion or its negation - COUNTIF(r, c) +
+    # COUNTIF(r, "<>" & c) counts every cell of a range of texts and blanks once (cells of another kind are left to the
+    # 'within their own type' wording of the property)
+    if fn == 'COUNTIF' and cr is not None and isinstance(crit, str) and cr['op'] in ('=', '<>') and crit not in ('', '=', '<>') \
+            and cr['kind'] == 'text' and all(L.kind(v) in ('text', 'blank') for v in flat) \
+            and not any(isinstance(v, str) and (X.is_numtext(v) or v == '') for v in flat):
+        body = crit[2:] if crit.startswith('<>') else crit[1:] if crit.startswith('=') else crit
+        if body:
+            pos = run('=COUNTIF(%s,%s)' % (rt, lit(body)), sh.inputs)
+            neg = run('=COUNTIF(%s,%s)' % (rt, lit('<>' + body)), sh.inputs)
+            if isinstance(pos, float) and isinstance(neg, float) and pos + neg != float(len(flat)):
+                fails.append(('criterion|partition|%s' % ('wild' if (cr['kind'] == 'text' and L.is_pattern(cr['tokens'])) else cr['kind']),
+                              'COUNTIF(%s, %r) = %r and COUNTIF(.., %r) = %r do not add up to the %d cells of %s' % (
+                                  rt, body, pos, '<>' + body, neg, len(flat), show(f, sh.inputs))))
     kinds = sorted({L.kind(v) for v in flat})
     ck = 'outside' if cr is None else '%s%s' % (cr['op'] if (cr['explicit'] or cr['op'] != '=') else 'plain', ':' + cr['kind'])
     if cr is not None and cr['kind'] == 'text' and L.is_pattern(cr['tokens']):
@@ -491,7 +506,7 @@ def _enum_match_sorted(tier):
     i = 0
     for n in range(1, 7):
         for kind_, keys, probes in _sorted_sets(n):
-            for direction, modes in ((1, ['1', None, 'TRUE']), (-1, ['-1'])):
+            for direction, modes in ((1, ['1', None, 'TRUE', '2']), (-1, ['-1', '-2'])):
                 vec = keys if direction > 0 else keys[::-1]
                 for mode in modes:
                     for o in 'rc':
@@ -716,6 +731,7 @@ RANGES = [
     [BLANK, '', 'a', 0.0, BLANK, 'b'],
     [2.5, NA, 1.0, DIV0, 0.0, -1.5],
     ['b', 1.0, 'B', 2.5, 'ab', False],
+    ['a', BLANK, 'ab', BLANK, 'b', 'xab'],
 ]
 ACC = [10.0, 20.5, -3.0, 4.0, 100.0, 0.25]
 ACC_MIXED = [10.0, 'x', True, BLANK, 100.0, NA]
